@@ -14,7 +14,8 @@ RULE = ("Call histories as generated operation lists (model-based testing; the w
         "(quick) and for MeanFieldTempo and PtTebd (thorough). Objects: Tempo (dkmax=2 so continuation crosses the memory "
         "boundary, or full memory; time-dependent system), MeanFieldTempo, PtTebd (targets in steps; 0-3 generated single-site chain controls on any step/site/side; restart from "
         "get_augmented_mps()+start_step at any step 0..4, also with controls on the restart step), PtTempo (compute / get_process_tensor in any order and multiplicity), GibbsTempo "
-        "(compute / get_state / get_dynamics). Operations: compute(target) in any order (increasing, repeated, decreasing), "
+        "(compute / get_state / get_dynamics). Targets are spelled as end times half-way into the next step, exactly on the grid "
+        "point (start + k dt, or its decimal literal) or 1e-12 before it. Operations: compute(target) in any order (increasing, repeated, decreasing), "
         "getters, and 'arm a transient fault' (the wrapped user callable - Hamiltonian, rate, Lindblad operator, field "
         "equation - raises at its k-th evaluation, once). Invariant after every operation: the dynamics are a prefix of the "
         "single-call reference (times exact, states within the truncation tolerance 6.1e-6 - separate runs are not bit-reproducible) reaching at least the furthest successful target; calls at or below "
@@ -31,6 +32,22 @@ NMAX = 5
 # the reference is a separate run: truncating back-ends are reproducible to the truncation tolerance only
 # (100 (N+1) epsrel + 1e-7 with epsrel 1e-8), not bit-wise
 STATE_TOL = 100.0 * (NMAX + 1) * 1e-8 + 1e-7
+
+
+SPELLINGS = ["half-way", "half-way", "on-grid", "on-grid-literal", "just-before"]
+
+
+def make_end_of(t0, spelling):
+    """end time that asks for k whole steps of dt = 0.1: half-way into step k+1 (unambiguous), start + k dt (a grid point up
+    to floating-point rounding: included by the documented rule), the decimal literal of that grid point, or a grid point
+    missed by 1e-12 (still included: the library's step count tolerates 1e-9 of a step... judged only via the reference)"""
+    if spelling == "on-grid":
+        return lambda k: t0 + k * 0.1
+    if spelling == "on-grid-literal":
+        return lambda k: round(t0 + k * 0.1, 10)
+    if spelling == "just-before":
+        return lambda k: t0 + k * 0.1 - 1e-12
+    return lambda k: t0 + (k + 0.5) * 0.1
 
 
 class InjectedFault(Exception):
@@ -169,7 +186,7 @@ def interpret(out, tag, ops, make, getter, ref_times, ref_states, injector, end_
 def s_tempo(draw, tier):
     return {"sys": draw(sysgen.sys_spec(2, force_td=True)), "rho0": draw(gens.dm_spec(2)),
             "dkmax": draw(st.sampled_from([2, 2, None, 1])), "t0": draw(st.sampled_from([0.0, 0.4])),
-            "ops": draw(s_ops(["hamiltonian", "gamma", "lindblad"]))}
+            "ops": draw(s_ops(["hamiltonian", "gamma", "lindblad"])), "spelling": draw(st.sampled_from(SPELLINGS))}
 
 
 def _tempo_objects(case, injector):
@@ -189,11 +206,11 @@ def run_tempo(case):
     inj = Injector()
     make, t0 = _tempo_objects(case, inj)
     make_ref, _ = _tempo_objects(case, None)
-    end_of = lambda k: t0 + (k + 0.5) * 0.1
-    ref = make_ref().compute(end_of(NMAX), progress_type="silent")
+    end_of = make_end_of(t0, case.get("spelling", "half-way"))
+    ref = make_ref().compute(t0 + (NMAX + 0.5) * 0.1, progress_type="silent")
     rt, rs = np.array(ref.times), np.array(ref.states)
     _history_labels(out, case["ops"])
-    out.label("dkmax=" + str(case["dkmax"]))
+    out.label("dkmax=" + str(case["dkmax"]), "targets=" + case.get("spelling", "half-way"))
     getter = lambda o: None if o.get_dynamics() is None else (o.get_dynamics().times, o.get_dynamics().states)
     interpret(out, "tempo", case["ops"], make, getter, rt, rs, inj, end_of)
     return out
@@ -204,6 +221,8 @@ def enum_cases(tier):
     for L in (1, 2, 3):
         for seq in itertools.product(range(NMAX + 1), repeat=L):
             cases.append({"kind": "tempo", "targets": list(seq)})
+            if L <= 2 or tier == "thorough":
+                cases.append({"kind": "tempo", "targets": list(seq), "spelling": "on-grid"})
             if tier == "thorough":
                 cases.append({"kind": "mean-field", "targets": list(seq)})
                 cases.append({"kind": "pt-tebd", "targets": list(seq)})
@@ -227,7 +246,7 @@ def _fixed_mf():
 def run_enum(case):
     ops = [{"op": "compute", "target": t} for t in case["targets"]]
     if case["kind"] == "tempo":
-        c = {"sys": _FIXED_SYS, "rho0": _FIXED_RHO, "dkmax": 2, "t0": 0.4, "ops": ops}
+        c = {"sys": _FIXED_SYS, "rho0": _FIXED_RHO, "dkmax": 2, "t0": 0.4, "ops": ops, "spelling": case.get("spelling", "half-way")}
         o = run_tempo(c)
     elif case["kind"] == "mean-field":
         c = {"mf": _fixed_mf(), "dkmax": 2, "t0": 0.4, "ops": ops}
@@ -245,7 +264,7 @@ def run_enum(case):
 def s_mf(draw, tier):
     return {"mf": draw(mfgen.mf_spec(tier, ns_max=2, dims=(2,), time_dependent=True)),
             "dkmax": draw(st.sampled_from([2, None])), "t0": draw(st.sampled_from([0.0, 0.4])),
-            "ops": draw(s_ops(["field_eom", "hamiltonian"]))}
+            "ops": draw(s_ops(["field_eom", "hamiltonian"])), "spelling": draw(st.sampled_from(SPELLINGS))}
 
 
 def run_mf(case):
@@ -260,9 +279,10 @@ def run_mf(case):
     a0 = complex(*mf["a0"])
     ns = len(rhos)
     make = lambda: oqupy.MeanFieldTempo(mfgen.build_mf_system(mf, wrap=inj.wrap), [bath] * ns, par, rhos, a0, start_time=t0)
-    end_of = lambda k: t0 + (k + 0.5) * 0.1
+    end_of = make_end_of(t0, case.get("spelling", "half-way"))
+    out.label("targets=" + case.get("spelling", "half-way"))
     ref = oqupy.MeanFieldTempo(mfgen.build_mf_system(mf), [bath] * ns, par, rhos, a0, start_time=t0).compute(
-        end_of(NMAX), progress_type="silent")
+        t0 + (NMAX + 0.5) * 0.1, progress_type="silent")
     pack = lambda d: np.concatenate([np.array(d.fields).reshape(-1, 1)] +
                                     [np.array(x.states).reshape(len(d.times), -1) for x in d.system_dynamics], axis=1)
     rt, rs = np.array(ref.times), pack(ref)
